@@ -157,7 +157,8 @@ enum HOp {
     Start,
     AddRemote { sock: usize, prio: u32, typ: u8 },
     SelectPair { sock: usize },
-    Req { sock: usize, user: UserKind, mi: MiKind, uc: bool, prio: Option<u32>, method: u16, enc: Enc, fp: bool },
+    /// `tcp: Some(i)`: sent as an RFC 4571 frame on the i-th TCP connection to the passive ICE-TCP candidate (sock ignored)
+    Req { sock: usize, user: UserKind, mi: MiKind, uc: bool, prio: Option<u32>, method: u16, enc: Enc, fp: bool, tcp: Option<usize> },
     Resp { sock: usize, succ: bool, tx: TxRef, method: u16, with_mi: bool },
     Raw { sock: usize, kind: RawKind },
     /// an outgoing Binding request of the agent is expected on this socket; it becomes `Launch`
@@ -167,7 +168,7 @@ enum HOp {
 }
 
 #[derive(Clone, Debug)]
-struct Spec { role: IceRole, latching: bool, mux: bool, ops: Vec<HOp>, kind: String }
+struct Spec { role: IceRole, latching: bool, mux: bool, tcp: bool, ops: Vec<HOp>, kind: String }
 
 #[derive(Clone, Debug, PartialEq)]
 struct CandObs { addr: SocketAddr, typ: u8, prio: u32, tcp: bool }
@@ -196,7 +197,11 @@ fn addr_term(a: &SocketAddr) -> String {
     format!("({}, {})", ip, a.port())
 }
 fn cand_term(a: &SocketAddr, base: &SocketAddr, typ: u8, prio: u32, tcp: bool) -> String {
-    format!("(mkCand {} {} {} {} {})", addr_term(a), addr_term(base), typ_term(typ), prio, bool_term(tcp))
+    format!("(mkCand {} {} {} {} {} false)", addr_term(a), addr_term(base), typ_term(typ), prio, bool_term(tcp))
+}
+fn local_cand_term(c: &IceCandidate) -> String {
+    format!("(mkCand {} {} {} {} {} {})", addr_term(&c.address), addr_term(&c.base_address()), typ_term(typ_code(c.typ)), c.priority,
+        bool_term(c.transport == "tcp"), bool_term(c.tcp_type == Some(rustrtc::TcpType::Passive)))
 }
 fn cand_obs_term(c: &CandObs) -> String { format!("({}, {}, {}, {})", addr_term(&c.addr), c.typ, c.prio, bool_term(c.tcp)) }
 fn obs_term(o: &Obs) -> String {
@@ -225,6 +230,24 @@ async fn bind(ip: Ipv4Addr, port: u16) -> std::io::Result<Sock> {
     Ok(Sock { s: Arc::new(s), addr, log: vec![], seen: 0 })
 }
 
+/// a TCP connection to the agent's passive ICE-TCP candidate (RFC 4571 framing)
+struct TcpCli { s: tokio::net::TcpStream, addr: SocketAddr, buf: Vec<u8> }
+impl TcpCli {
+    fn frames(&mut self) -> Vec<Vec<u8>> {
+        let mut tmp = [0u8; 4096];
+        while let Ok(n) = self.s.try_read(&mut tmp) { if n == 0 { break; } self.buf.extend_from_slice(&tmp[..n]); }
+        let mut out = vec![];
+        loop {
+            if self.buf.len() < 2 { break; }
+            let l = u16::from_be_bytes([self.buf[0], self.buf[1]]) as usize;
+            if self.buf.len() < 2 + l { break; }
+            out.push(self.buf[2..2 + l].to_vec());
+            self.buf.drain(..2 + l);
+        }
+        out
+    }
+}
+
 struct Captured { tx: [u8; 12], sock: usize, nom: bool, round: i64, answered: bool }
 
 struct Ran {
@@ -232,6 +255,7 @@ struct Ran {
     obs: Vec<Obs>,
     descs: Vec<serde_json::Value>,
     local: SocketAddr,
+    locals_term: String,
     fail: Option<String>,
     known: Option<String>,
     nontrivial: bool,
@@ -253,7 +277,7 @@ fn protected_eq(a: &Obs, b: &Obs) -> bool { a.state == b.state && a.remotes == b
 
 async fn run_case(spec: &Spec, seed: u64) -> Ran {
     let mut r = Rng::new(seed);
-    let mut ran = Ran { terms: vec![], obs: vec![], descs: vec![], local: "0.0.0.0:0".parse().unwrap(), fail: None, known: None,
+    let mut ran = Ran { terms: vec![], obs: vec![], descs: vec![], local: "0.0.0.0:0".parse().unwrap(), locals_term: "[]".into(), fail: None, known: None,
         nontrivial: false, harness_err: None, stats: vec![] };
     // ---- the agent under test
     let mut made = None;
@@ -263,6 +287,7 @@ async fn run_case(spec: &Spec, seed: u64) -> Ran {
         cfg.enable_latching = spec.latching;
         cfg.stun_timeout = Duration::from_millis(STUN_TIMEOUT_MS);
         cfg.nomination_timeout = Duration::from_millis(NOM_TIMEOUT_MS);
+        if spec.tcp { cfg.ice_tcp_policy = rustrtc::IceTcpPolicy::Enabled; }
         if spec.mux {
             // shared-UDP mux socket kind: one process-wide socket per port, demux by ufrag / source address
             let port = loop {
@@ -279,13 +304,17 @@ async fn run_case(spec: &Spec, seed: u64) -> Ran {
             if t0.elapsed() > Duration::from_secs(5) { break; }
             tokio::time::sleep(Duration::from_millis(1)).await;
         }
-        if t.gather_state() == IceGathererState::Complete && t.local_candidates().len() == 1 { made = Some((t, runner)); break; }
+        if t.gather_state() == IceGathererState::Complete && t.local_candidates().len() == if spec.tcp { 2 } else { 1 } { made = Some((t, runner)); break; }
         t.stop(); runner.abort();
     }
     let Some((t, runner)) = made else { ran.harness_err = Some("could not create an agent with exactly one local candidate".into()); return ran; };
     let locals = t.local_candidates();
-    let lc = locals[0].clone();
+    let Some(lc) = locals.iter().find(|c| c.transport == "udp").cloned() else { ran.harness_err = Some("no UDP local candidate".into()); t.stop(); runner.abort(); return ran; };
+    let ltc = locals.iter().find(|c| c.transport == "tcp").cloned();
+    if spec.tcp && ltc.is_none() { ran.harness_err = Some("no TCP local candidate".into()); t.stop(); runner.abort(); return ran; }
     ran.local = lc.address;
+    ran.locals_term = list_term(&locals.iter().map(local_cand_term).collect::<Vec<_>>());
+    let mut tcps: Vec<TcpCli> = vec![];
     let lpar = t.local_parameters();
     let rpar = IceParameters::new(format!("R{:08x}", r.next() as u32), format!("remotepw{:016x}", r.next()));
     let want_user = format!("{}:{}", lpar.username_fragment, rpar.username_fragment);
@@ -307,7 +336,7 @@ async fn run_case(spec: &Spec, seed: u64) -> Ran {
     let mut captured: Vec<Captured> = vec![];
     let mut finished: Vec<(i64, bool)> = vec![];
     let mut prev = observe(&t, vec![]);
-    let local_term = cand_term(&lc.address, &lc.base_address(), typ_code(lc.typ), lc.priority, lc.transport == "tcp");
+    let local_term = local_cand_term(&lc);
     let mut unsolicited_seen = false;
     let mut baseline_after_unsolicited: Option<Obs> = None;
 
@@ -338,7 +367,7 @@ async fn run_case(spec: &Spec, seed: u64) -> Ran {
                 term = format!("ApiSelectPair (mkPair {} {})", local_term,
                     cand_term(&rc.address, &rc.address, typ_code(rc.typ), rc.priority, false));
             }
-            HOp::Req { sock, user, mi, uc, prio, method, enc, fp } => {
+            HOp::Req { sock, user, mi, uc, prio, method, enc, fp, tcp } => {
                 let tx: [u8; 12] = r.bytes(12).try_into().unwrap();
                 let uname: Option<String> = match user {
                     UserKind::None => None,
@@ -378,18 +407,41 @@ async fn run_case(spec: &Spec, seed: u64) -> Ran {
                 }
                 let dec_ok = StunMessage::decode(&bytes).is_ok();
                 if !dec_ok { ran.harness_err = Some("rustrtc decoder rejects a well-formed request".into()); }
-                let src = socks[*sock].addr;
-                socks[*sock].drain(); socks[*sock].seen = socks[*sock].log.len();
-                socks[*sock].s.send_to(&bytes, agent_addr).await.ok();
+                // ---- where it is sent from / to
+                let mut via_tcp: Option<usize> = None;
+                if let (Some(i), Some(ltc)) = (tcp, &ltc) {
+                    while tcps.len() <= *i {
+                        match tokio::net::TcpStream::connect(ltc.address).await {
+                            Ok(st) => { let a = st.local_addr().unwrap(); tcps.push(TcpCli { s: st, addr: a, buf: vec![] }); }
+                            Err(e) => { ran.harness_err = Some(format!("TCP connect to the passive candidate failed: {e}")); break; }
+                        }
+                    }
+                    if ran.harness_err.is_some() { break; }
+                    tokio::time::sleep(Duration::from_millis(2)).await;
+                    via_tcp = Some(*i);
+                }
+                let src = match via_tcp { Some(i) => tcps[i].addr, None => socks[*sock].addr };
+                let dst_local = match (via_tcp, &ltc) { (Some(_), Some(l)) => l.address, _ => agent_addr };
+                if let Some(i) = via_tcp {
+                    use tokio::io::AsyncWriteExt;
+                    let mut framed = (bytes.len() as u16).to_be_bytes().to_vec();
+                    framed.extend_from_slice(&bytes);
+                    if tcps[i].s.write_all(&framed).await.is_err() { ran.harness_err = Some("TCP write failed".into()); break; }
+                } else {
+                    socks[*sock].drain();
+                    socks[*sock].s.send_to(&bytes, agent_addr).await.ok();
+                }
+                let scan_from = socks[*sock].log.len();
                 // the reply (if any) is the synchronisation point
                 let deadline = Instant::now() + Duration::from_millis(80);
                 let mut got = false;
                 while Instant::now() < deadline && !got {
                     tokio::time::sleep(Duration::from_millis(1)).await;
-                    socks[*sock].drain();
-                    let sk = &mut socks[*sock];
-                    for i in sk.seen..sk.log.len() {
-                        let (b, from) = &sk.log[i];
+                    let incoming: Vec<(Vec<u8>, SocketAddr)> = match via_tcp {
+                        Some(i) => tcps[i].frames().into_iter().map(|f| (f, agent_addr)).collect(),
+                        None => { socks[*sock].drain(); socks[*sock].log[scan_from..].to_vec() }
+                    };
+                    for (b, from) in incoming.iter() {
                         if *from == agent_addr && b.len() >= 20 && b[0] == 0x01 && b[1] == 0x01 && b[8..20] == tx {
                             got = true;
                             sends.push((src, tx_num(&tx)));
@@ -406,12 +458,12 @@ async fn run_case(spec: &Spec, seed: u64) -> Ran {
                     }
                 }
                 tokio::time::sleep(Duration::from_millis(1)).await;
-                term = format!("Pkt {} {} {}", addr_term(&agent_addr), addr_term(&src), pkt_term(&f));
-                desc = json!({"req": {"from": src.to_string(), "user": format!("{:?}", user), "mi": format!("{:?}", mi), "use_candidate": uc,
+                term = format!("Pkt {} {} {} {}", if via_tcp.is_some() { "KTcp" } else { "KUdp" }, addr_term(&dst_local), addr_term(&src), pkt_term(&f));
+                desc = json!({"req": {"from": src.to_string(), "ice_tcp_stream": via_tcp, "user": format!("{:?}", user), "mi": format!("{:?}", mi), "use_candidate": uc,
                     "priority": prio, "method": method, "encoder": format!("{:?}", enc), "fingerprint": fp,
                     "bytes": bytes.iter().map(|b| format!("{:02x}", b)).collect::<String>(), "replied": got}});
-                req_view = Some(ReqView { src, authentic: authenticated(&f), uc: f.uc,
-                    what: format!("request from {} with USERNAME {:?}, MESSAGE-INTEGRITY {:?}, USE-CANDIDATE {}", src, user, mi, uc) });
+                req_view = Some(ReqView { src, authentic: authenticated(&f), uc: f.uc, tcp: via_tcp.is_some(),
+                    what: format!("request from {}{} with USERNAME {:?}, MESSAGE-INTEGRITY {:?}, USE-CANDIDATE {}", src, if via_tcp.is_some() { " (ICE-TCP stream)" } else { "" }, user, mi, uc) });
                 ran.stats.push(format!("req:{}", if authenticated(&f) { "auth" } else { "unauth" }));
             }
             HOp::Resp { sock, succ, tx, method, with_mi } => {
@@ -436,7 +488,7 @@ async fn run_case(spec: &Spec, seed: u64) -> Ran {
                 let f = facts(&bytes, &want_user, &lpar.password);
                 socks[*sock].s.send_to(&bytes, agent_addr).await.ok();
                 tokio::time::sleep(Duration::from_millis(8)).await;
-                let mut t_ = format!("Pkt {} {} {}", addr_term(&agent_addr), addr_term(&src), pkt_term(&f));
+                let mut t_ = format!("Pkt KUdp {} {} {}", addr_term(&agent_addr), addr_term(&src), pkt_term(&f));
                 // when this answer was the last outstanding one of its (round, phase), the collection loop of
                 // perform_connectivity_checks_async ends at once: the round's selection step belongs to this operation
                 if let TxRef::Live(i) = tx {
@@ -480,11 +532,11 @@ async fn run_case(spec: &Spec, seed: u64) -> Ran {
                     let (b, from) = &sk.log[i];
                     if *from == agent_addr && b.len() >= 20 && b[0] == 0x01 && b[1] == 0x01 && tx_num(&b[8..20]) == f.tx { sends.push((src, f.tx)); }
                 }
-                term = format!("Pkt {} {} {}", addr_term(&agent_addr), addr_term(&src), pkt_term(&f));
+                term = format!("Pkt KUdp {} {} {}", addr_term(&agent_addr), addr_term(&src), pkt_term(&f));
                 desc = json!({"raw": {"from": src.to_string(), "kind": format!("{:?}", kind).chars().take(40).collect::<String>(),
                     "bytes": bytes.iter().map(|b| format!("{:02x}", b)).collect::<String>()}});
                 if request_shaped(&f) {
-                    req_view = Some(ReqView { src, authentic: authenticated(&f), uc: f.uc,
+                    req_view = Some(ReqView { src, authentic: authenticated(&f), uc: f.uc, tcp: false,
                         what: format!("request-shaped datagram {} from {}", bytes.iter().map(|b| format!("{:02x}", b)).collect::<String>(), src) });
                     ran.stats.push("raw:request-shaped".into());
                 } else { ran.stats.push("raw".into()); }
@@ -577,7 +629,7 @@ fn obs_json(o: &Obs) -> serde_json::Value {
 ///    undecodable or non-STUN datagram must leave them untouched as well.
 /// a datagram that is (at most) a STUN request, as established by the harness' own parse
 #[derive(Clone, Debug)]
-struct ReqView { src: SocketAddr, authentic: bool, uc: bool, what: String }
+struct ReqView { src: SocketAddr, authentic: bool, uc: bool, tcp: bool, what: String }
 
 fn request_shaped(f: &Facts) -> bool {
     f.b0 < 2 && f.wf && (f.ty & 0x0110) == 0 && matches!(f.ty & 0x3EEF, 1 | 3 | 4 | 8 | 9 | 6 | 7)
@@ -615,11 +667,12 @@ fn oracle_step(spec: &Spec, op: &HOp, rv: Option<&ReqView>, prev: &Obs, cur: &Ob
         if cur.remotes != prev.remotes {
             let was_known = prev.remotes.iter().any(|c| c.addr == src);
             let appended = cur.remotes.len() == prev.remotes.len() + 1 && cur.remotes[..prev.remotes.len()] == prev.remotes[..]
-                && cur.remotes.last().map(|c| c.addr == src && c.typ == 2).unwrap_or(false);
+                && cur.remotes.last().map(|c| c.addr == src && c.typ == 2 && c.tcp == rv.tcp).unwrap_or(false);
             if was_known || !appended { listed = false; }
         }
-        // (2) selected pair: latching retarget (same port, other ip) or USE-CANDIDATE on the controlled side selecting the source
-        let controlled_uc = uc && spec.role == IceRole::Controlled;
+        // (2) selected pair: latching retarget (same port, other ip) or -- on the controlled side -- USE-CANDIDATE on a
+        //     datagram socket / any request on an ICE-TCP stream while nomination is open, selecting the source
+        let controlled_uc = spec.role == IceRole::Controlled && if rv.tcp { prev.nom == 0 } else { uc };
         if cur.selected != prev.selected {
             let retarget = spec.latching && match (&prev.selected, &cur.selected) {
                 (Some((pl, pr)), Some((cl, cr))) => pl == cl && pr.addr.port() == src.port() && pr.addr.ip() != src.ip() && cr.addr == src,
@@ -652,50 +705,53 @@ fn oracle_step(spec: &Spec, op: &HOp, rv: Option<&ReqView>, prev: &Obs, cur: &Ob
 const HOST_PRIO: u32 = (126 << 24) | (65535 << 8) | 255;
 
 fn req(sock: usize, user: UserKind, mi: MiKind, uc: bool) -> HOp {
-    HOp::Req { sock, user, mi, uc, prio: Some(1845501695), method: 1, enc: Enc::Own, fp: true }
+    HOp::Req { sock, user, mi, uc, prio: Some(1845501695), method: 1, enc: Enc::Own, fp: true, tcp: None }
 }
 
 fn corpus() -> Vec<Spec> {
     let mut v = vec![];
     // F18: controlled agent in Checking, one request from an unknown address with USE-CANDIDATE and no credentials
-    v.push(Spec { role: IceRole::Controlled, latching: false, mux: false, kind: "corpus".into(),
+    v.push(Spec { role: IceRole::Controlled, latching: false, mux: false, tcp: false, kind: "corpus".into(),
         ops: vec![HOp::Start, req(2, UserKind::None, MiKind::None, true)] });
     // same, but the agent already has a legitimate peer candidate and an outstanding check towards it
-    v.push(Spec { role: IceRole::Controlled, latching: false, mux: false, kind: "corpus".into(),
+    v.push(Spec { role: IceRole::Controlled, latching: false, mux: false, tcp: false, kind: "corpus".into(),
         ops: vec![HOp::AddRemote { sock: 0, prio: HOST_PRIO, typ: 0 }, HOp::Start, HOp::Capture { sock: 0, round: 1, nom: false },
                   req(2, UserKind::None, MiKind::None, true)] });
     // the legitimate flow: authenticated USE-CANDIDATE from the signalled peer
-    v.push(Spec { role: IceRole::Controlled, latching: false, mux: false, kind: "corpus".into(),
+    v.push(Spec { role: IceRole::Controlled, latching: false, mux: false, tcp: false, kind: "corpus".into(),
         ops: vec![HOp::AddRemote { sock: 0, prio: HOST_PRIO, typ: 0 }, HOp::Start, req(0, UserKind::Right, MiKind::Right, true)] });
     // nominated by the peer, then a stranger without credentials sends USE-CANDIDATE: prflx priority is lower -> pair kept, candidate learned
-    v.push(Spec { role: IceRole::Controlled, latching: false, mux: false, kind: "corpus".into(),
+    v.push(Spec { role: IceRole::Controlled, latching: false, mux: false, tcp: false, kind: "corpus".into(),
         ops: vec![HOp::AddRemote { sock: 0, prio: HOST_PRIO, typ: 0 }, HOp::Start, req(0, UserKind::Right, MiKind::Right, true),
                   req(2, UserKind::None, MiKind::None, true)] });
     // nominated on a low-priority (relay) peer candidate, then the stranger: priority upgrade to the stranger
-    v.push(Spec { role: IceRole::Controlled, latching: false, mux: false, kind: "corpus".into(),
+    v.push(Spec { role: IceRole::Controlled, latching: false, mux: false, tcp: false, kind: "corpus".into(),
         ops: vec![HOp::AddRemote { sock: 0, prio: 16777215, typ: 3 }, HOp::Start, req(0, UserKind::Right, MiKind::Right, true),
                   req(2, UserKind::WrongBoth, MiKind::WrongKey, true)] });
     // latching retarget by a request without credentials from the same port on another ip
-    v.push(Spec { role: IceRole::Controlling, latching: true, mux: false, kind: "corpus".into(),
+    v.push(Spec { role: IceRole::Controlling, latching: true, mux: false, tcp: false, kind: "corpus".into(),
         ops: vec![HOp::AddRemote { sock: 0, prio: HOST_PRIO, typ: 0 }, HOp::SelectPair { sock: 0 }, req(3, UserKind::None, MiKind::None, false)] });
+    // F18 over ICE-TCP: controlled agent in Checking, one request WITHOUT USE-CANDIDATE and without credentials on an accepted stream
+    v.push(Spec { role: IceRole::Controlled, latching: false, mux: false, tcp: true, kind: "corpus".into(),
+        ops: vec![HOp::Start, HOp::Req { sock: 0, user: UserKind::None, mi: MiKind::None, uc: false, prio: None, method: 1, enc: Enc::Own, fp: true, tcp: Some(0) }] });
     // responses: random id, then the live id of the agent's own check answered from a third socket
-    v.push(Spec { role: IceRole::Controlled, latching: false, mux: false, kind: "corpus".into(),
+    v.push(Spec { role: IceRole::Controlled, latching: false, mux: false, tcp: false, kind: "corpus".into(),
         ops: vec![HOp::AddRemote { sock: 0, prio: HOST_PRIO, typ: 0 }, HOp::Start, HOp::Capture { sock: 0, round: 1, nom: false },
                   HOp::Resp { sock: 2, succ: true, tx: TxRef::Random, method: 1, with_mi: false },
                   HOp::Resp { sock: 2, succ: true, tx: TxRef::Live(0), method: 1, with_mi: false }, HOp::AwaitRound { round: 1 }] });
     // error response consumes the transaction: a later success with the same id is not honoured
-    v.push(Spec { role: IceRole::Controlled, latching: false, mux: false, kind: "corpus".into(),
+    v.push(Spec { role: IceRole::Controlled, latching: false, mux: false, tcp: false, kind: "corpus".into(),
         ops: vec![HOp::AddRemote { sock: 0, prio: HOST_PRIO, typ: 0 }, HOp::Start, HOp::Capture { sock: 0, round: 1, nom: false },
                   HOp::Resp { sock: 0, succ: false, tx: TxRef::Live(0), method: 1, with_mi: false },
                   HOp::Resp { sock: 0, succ: true, tx: TxRef::Stale(0), method: 1, with_mi: false }, HOp::AwaitRound { round: 1 }] });
     // controlling: check answered, nomination answered
-    v.push(Spec { role: IceRole::Controlling, latching: false, mux: false, kind: "corpus".into(),
+    v.push(Spec { role: IceRole::Controlling, latching: false, mux: false, tcp: false, kind: "corpus".into(),
         ops: vec![HOp::AddRemote { sock: 0, prio: HOST_PRIO, typ: 0 }, HOp::Start, HOp::Capture { sock: 0, round: 1, nom: false },
                   HOp::Resp { sock: 0, succ: true, tx: TxRef::Live(0), method: 1, with_mi: true }, HOp::AwaitRound { round: 1 },
                   HOp::Capture { sock: 0, round: 1, nom: true }, HOp::Resp { sock: 0, succ: true, tx: TxRef::Live(1), method: 1, with_mi: true },
                   HOp::AwaitNom { round: 1 }] });
     // controlling: check answered, nomination never answered -> nomination failed
-    v.push(Spec { role: IceRole::Controlling, latching: false, mux: false, kind: "corpus".into(),
+    v.push(Spec { role: IceRole::Controlling, latching: false, mux: false, tcp: false, kind: "corpus".into(),
         ops: vec![HOp::AddRemote { sock: 0, prio: HOST_PRIO, typ: 0 }, HOp::Start, HOp::Capture { sock: 0, round: 1, nom: false },
                   HOp::Resp { sock: 0, succ: true, tx: TxRef::Live(0), method: 1, with_mi: true }, HOp::AwaitRound { round: 1 },
                   HOp::Capture { sock: 0, round: 1, nom: true }, HOp::Resp { sock: 2, succ: true, tx: TxRef::Random, method: 1, with_mi: true },
@@ -733,7 +789,7 @@ fn matrix() -> Vec<Spec> {
                     for user in USERS3 { for mi in MIS3 { for uc in [false, true] {
                         let mut ops = prelude(pre, HOST_PRIO, HOST_PRIO - 256);
                         ops.push(req(src, user, mi, uc));
-                        v.push(Spec { role, latching, mux: false, ops, kind: "matrix".into() });
+                        v.push(Spec { role, latching, mux: false, tcp: false, ops, kind: "matrix".into() });
                     } } }
                 }
             }
@@ -755,7 +811,7 @@ fn upgrade_family() -> Vec<Spec> {
                     ops.push(req(1, u, m, true));
                     ops.push(req(2, u, m, true)); // and the stranger (learned prflx priority 1862270975)
                     ops.push(req(0, UserKind::Right, MiKind::Right, true)); // the original peer again
-                    v.push(Spec { role: IceRole::Controlled, latching, mux: false, ops, kind: "upgrade".into() });
+                    v.push(Spec { role: IceRole::Controlled, latching, mux: false, tcp: false, ops, kind: "upgrade".into() });
                 }
             }
         }
@@ -775,7 +831,7 @@ fn mux_family() -> Vec<Spec> {
                     ops.push(req(src, user, mi, uc));
                     // a second datagram from the same source: now routed by the recorded address (if the first was)
                     ops.push(req(src, UserKind::None, MiKind::None, uc));
-                    v.push(Spec { role, latching: false, mux: true, ops, kind: "mux".into() });
+                    v.push(Spec { role, latching: false, mux: true, tcp: false, ops, kind: "mux".into() });
                 } } }
             }
         }
@@ -785,7 +841,29 @@ fn mux_family() -> Vec<Spec> {
             if map_first { ops.push(req(0, UserKind::WrongRemote, MiKind::None, false)); }
             ops.push(HOp::Resp { sock: 0, succ: true, tx: TxRef::Live(0), method: 1, with_mi: false });
             ops.push(HOp::AwaitRound { round: 1 });
-            v.push(Spec { role, latching: false, mux: true, ops, kind: "mux".into() });
+            v.push(Spec { role, latching: false, mux: true, tcp: false, ops, kind: "mux".into() });
+        }
+    }
+    v
+}
+
+/// the passive ICE-TCP socket kind: requests framed on accepted TCP streams
+fn tcp_family() -> Vec<Spec> {
+    let mut v = vec![];
+    let creds = [(UserKind::None, MiKind::None), (UserKind::Right, MiKind::WrongKey), (UserKind::WrongRemote, MiKind::Right), (UserKind::Right, MiKind::Right)];
+    for role in [IceRole::Controlling, IceRole::Controlled] {
+        for pre in [Pre::New, Pre::Checking, Pre::CheckingWithPeers, Pre::ConnectedSelected, Pre::ConnectedNominated] {
+            for latching in [false, true] {
+                for (user, mi) in creds { for uc in [false, true] {
+                    let mut ops = prelude(pre, HOST_PRIO, HOST_PRIO - 256);
+                    let on = |c: usize, u: UserKind, m: MiKind, uc: bool| HOp::Req { sock: 0, user: u, mi: m, uc, prio: Some(1845501695), method: 1, enc: Enc::Own, fp: true, tcp: Some(c) };
+                    ops.push(on(0, user, mi, uc));
+                    ops.push(on(0, user, mi, !uc));               // same stream again: source now known
+                    ops.push(on(1, UserKind::None, MiKind::None, uc)); // a second stream
+                    ops.push(req(1, user, mi, true));              // and a datagram on the UDP socket
+                    v.push(Spec { role, latching, mux: false, tcp: true, ops, kind: "tcp".into() });
+                } }
+            }
         }
     }
     v
@@ -798,7 +876,7 @@ fn random_req(r: &mut Rng, nsock: usize) -> HOp {
     HOp::Req { sock: r.below(nsock as u64) as usize, user: pick_user(r), mi: pick_mi(r), uc: r.chance(3, 5),
         prio: if r.chance(4, 5) { Some(*r.pick(&[0u32, 1, 1845501695, HOST_PRIO, u32::MAX])) } else { None },
         method: if r.chance(9, 10) { 1 } else { *r.pick(&[3u16, 4, 8, 9, 6, 7]) },
-        enc: if r.chance(1, 3) { Enc::Rustrtc } else { Enc::Own }, fp: r.chance(4, 5) }
+        enc: if r.chance(1, 3) { Enc::Rustrtc } else { Enc::Own }, fp: r.chance(4, 5), tcp: None }
 }
 
 fn random_raw(r: &mut Rng, nsock: usize) -> HOp {
@@ -817,6 +895,8 @@ fn random_raw(r: &mut Rng, nsock: usize) -> HOp {
 fn random_seq(r: &mut Rng) -> Spec {
     let role = if r.chance(3, 5) { IceRole::Controlled } else { IceRole::Controlling };
     let latching = r.chance(1, 3);
+    // socket kinds: plain UDP host socket, shared-UDP mux, UDP + passive ICE-TCP
+    let (mux, tcp) = match r.below(6) { 0 => (true, false), 1 => (false, true), _ => (false, false) };
     let pre = *r.pick(&[Pre::New, Pre::NewWithPeers, Pre::Checking, Pre::CheckingWithPeers, Pre::ConnectedSelected, Pre::ConnectedNominated, Pre::ConnectedNominated]);
     // priorities of the two signalled peers: equal, +-1, far apart; the learned prflx priority is 1862270975
     let base = *r.pick(&[HOST_PRIO, 1862270975u32, 1862270974, 1862270976, 16777215, 1, u32::MAX - 1]);
@@ -827,13 +907,15 @@ fn random_seq(r: &mut Rng) -> Spec {
     for _ in 0..n {
         let k = r.below(100);
         let nsock = if latching { 4 } else { 3 };
-        ops.push(if k < 70 { random_req(r, nsock) }
+        ops.push(if k < 70 { let mut q = random_req(r, nsock);
+                             if tcp && r.chance(1, 2) { if let HOp::Req { tcp: t, .. } = &mut q { *t = Some(r.below(2) as usize); } }
+                             q }
             else if k < 80 { HOp::Resp { sock: r.below(3) as usize, succ: r.chance(2, 3), tx: TxRef::Random, method: if r.chance(4, 5) { 1 } else { 3 }, with_mi: r.chance(1, 2) } }
             else if k < 92 { random_raw(r, nsock) }
             else if k < 96 { HOp::SelectPair { sock: r.below(2) as usize } }
             else { HOp::AddRemote { sock: 2, prio: *r.pick(&[HOST_PRIO, 1862270975u32, 5]), typ: *r.pick(&[0u8, 1, 2, 3]) } });
     }
-    Spec { role, latching, mux: r.chance(1, 6), ops, kind: "random".into() }
+    Spec { role, latching, mux, tcp, ops, kind: "random".into() }
 }
 
 /// scenarios around the agent's own transactions (live / stale / random ids, success / error, wrong method)
@@ -876,7 +958,7 @@ fn response_scenarios(r: &mut Rng, n: usize) -> Vec<Spec> {
             ops.push(HOp::Resp { sock: 0, succ: true, tx: TxRef::Stale(0), method: 1, with_mi: true });
             ops.push(HOp::AwaitRound { round: 2 });
         }
-        v.push(Spec { role, latching: false, mux: false, ops, kind: "responses".into() });
+        v.push(Spec { role, latching: false, mux: false, tcp: false, ops, kind: "responses".into() });
     }
     v
 }
@@ -891,6 +973,7 @@ async fn main() {
     specs.extend(matrix());
     specs.extend(upgrade_family());
     specs.extend(mux_family());
+    specs.extend(tcp_family());
     specs.extend(response_scenarios(&mut r, if thorough { 240 } else { 60 }));
     for _ in 0..(if thorough { 12000 } else { 2200 }) { specs.push(random_seq(&mut r)); }
     if let Ok(n) = std::env::var("C06_LIMIT") { specs.truncate(n.parse().unwrap_or(usize::MAX)); }
@@ -910,17 +993,15 @@ async fn main() {
             let mut fail = ran.fail.clone();
             if let Some(e) = &ran.harness_err { harness_errors.push(format!("case {}: {}", idx + k, e)); if fail.is_none() { fail = Some(format!("harness self-check: {}", e)); } }
             if ran.known.is_some() { *stats.entry("known:unauth_request_mutates".into()).or_default() += 1; }
-            let lterm = format!("[{}]", {
-                // the single local host candidate
-                let a = ran.local; cand_term(&a, &a, 0, HOST_PRIO, false) });
+            let lterm = ran.locals_term.clone();
             let term = if ran.harness_err.is_some() { "-".to_string() } else {
                 format!("mkCase {} {} {} {} {} {}", role_term(spec.role), bool_term(spec.latching), bool_term(spec.mux), lterm,
                     list_term(&ran.terms), list_term(&ran.obs.iter().map(obs_term).collect::<Vec<_>>())) };
             // distinctness: the shape of the case (addresses and random ids abstracted away)
-            let key = format!("{:?}|{}|{}|{:?}", spec.role, spec.latching, spec.mux, spec.ops);
+            let key = format!("{:?}|{}|{}|{}|{:?}", spec.role, spec.latching, spec.mux, spec.tcp, spec.ops);
             out.push(Case {
                 term,
-                desc: json!({"role": format!("{:?}", spec.role), "latching": spec.latching, "shared_udp_mux": spec.mux, "local": ran.local.to_string(), "steps": ran.descs}),
+                desc: json!({"role": format!("{:?}", spec.role), "latching": spec.latching, "shared_udp_mux": spec.mux, "ice_tcp": spec.tcp, "local": ran.local.to_string(), "steps": ran.descs}),
                 oracle_fail: fail,
                 known: ran.known.clone(),
                 nontrivial: ran.nontrivial,
